@@ -1,6 +1,12 @@
 """Single source for MANIFEST.json (see /verif/tools_manifest.py)."""
 
 ENGINES = [
+    {'name': 'sched', 'path': 'lib/vt/sched.py',
+     'serves_properties': ['C06', 'C07'],
+     'kind_free_text': 'controlled scheduler: real threads under a semaphore '
+                       'baton, virtual child processes with finite pipes, '
+                       'name substitution in zope.testrunner.runner; used by '
+                       'a preemption-bounded stateful DFS'},
     {'name': 'explore', 'path': 'lib/vt/explore.py',
      'serves_properties': ['C01', 'C02', 'C03', 'C04', 'C06', 'C07',
                            'C08', 'C09', 'C14',
@@ -16,6 +22,33 @@ NOTES = ('Every check executes the implementation in /repo/src (working tree) '
          'DESIGN.md.')
 
 CHECKS = [
+    {'id': 'C06', 'engine': 'sched', 'level': 'model_checking',
+     'design_ref': 'DESIGN.md §3.4, §4 C06',
+     'technique': 'stateless-replay / stateful-visited model checking of the '
+                  'real resume_tests + spawn_layer_in_subprocess on real '
+                  'threads under a baton scheduler with virtual child '
+                  'processes: all interleavings up to a preemption bound '
+                  '(DFS, partial-order reduction for child/reader steps), '
+                  'invariants at every state; plus exhaustive -jN vs '
+                  'sequential world runs',
+     'text': 'The unmodified parent poll loop, worker threads and stderr '
+             'reader threads run against 2 (bound 2) and 3 (bound 0/1; '
+             'thorough 4) scripted virtual layer subprocesses for every N in '
+             '1..k+1 and the deferred, immediate and keep-alive collectors, '
+             'with 8- and 64-byte pipes, a spawn failure and a "only proceeds '
+             'once layer X has started" dependency. At every reachable state: '
+             'at most N children alive and the printed bytes are a prefix of '
+             'the sequential block sequence (keep-alive marks only between '
+             'blocks); at every terminal state: output, ran and the '
+             'failure/error multisets equal the sequential reference, all '
+             'children reaped, no deadlock, no hang, all k! worker finish '
+             'orders reached. Outcome worlds are also run with -j1..-j4 at '
+             '-v0..2 against their sequential run.',
+     'note': 'Scheduling points are the synchronisation and pipe operations '
+             'plus sleep; CPython may switch elsewhere, but the code between '
+             'points only does single list appends / attribute stores. '
+             'Children are virtual (bound to real ones by C07\'s conformance '
+             'cases). Preemption bound and k are small.'},
     {'id': 'C19', 'engine': 'explore', 'level': 'exploration',
      'design_ref': 'DESIGN.md §4 C19',
      'technique': 'bounded exhaustive enumeration of thread histories over a '
@@ -336,7 +369,7 @@ CHECKS = [
              'nodes use whatever id() order the interpreter gives.'},
 ]
 
-_PENDING = ['C06', 'C07', 'C09',
+_PENDING = ['C07', 'C09',
             'C10', 'C11', 'C14', 'C17', 'C18',
             'C19']
 _DONE = {c['id'] for c in CHECKS}
